@@ -8,3 +8,5 @@ import Csproto.Bridge.Templates
 #print axioms Csproto.C07.unknown_retained_in_order
 #print axioms Csproto.Gen.fold_unknown
 #print axioms Csproto.Bridge.Templates.unknown_fields_handled
+#print axioms Csproto.C07.unknown_retained_in_order_nested
+#print axioms Csproto.Gen.unmarshal_nested
